@@ -115,6 +115,10 @@ def apiTraceUnguarded (p : PSt) (id : Nat) (err : Option String) : PSt :=
   | some pe, some x => { p with store := p.store.set pe.ctx { p.store.getD pe.ctx freshCtx with err := some x } }
   | _, _ => p
 
+/-- `stat.ResetResourceNodeMap()` (see `Entry.resetNodes`) -/
+def resetNodes (p : PSt) : PSt :=
+  { p with nodes := [], store := p.store.map fun c => { c with hasNode := false } }
+
 /-- an op together with the pool's choice (only `entry` consults the pool) -/
 def step (fix : Bool) (p : PSt) (x : TOp) (pick : Nat) : PSt :=
   match x.2 with
